@@ -70,6 +70,45 @@ func (e *vPipeEnd) SetDeadline(t time.Time) error      { return nil }
 func (e *vPipeEnd) SetReadDeadline(t time.Time) error  { return nil }
 func (e *vPipeEnd) SetWriteDeadline(t time.Time) error { return nil }
 
+// vChanListener: a net.Listener whose Accept blocks on a channel of incoming connections (the real server.serve
+// accept loop runs on it).
+type vChanListener struct {
+	incoming chan net.Conn
+	closed   bool
+}
+
+func vNewListener() *vChanListener { return &vChanListener{incoming: make(chan net.Conn, 16)} }
+func (l *vChanListener) Accept() (net.Conn, error) {
+	c, ok := <-l.incoming
+	if !ok {
+		return nil, vIOError{"accept: listener closed"}
+	}
+	return c, nil
+}
+func (l *vChanListener) Close() error {
+	if !l.closed {
+		l.closed = true
+		close(l.incoming)
+	}
+	return nil
+}
+func (l *vChanListener) Addr() net.Addr { return vAddrT{} }
+
+// vServe: the node's real accept loop on a channel listener; returns the dial function that reaches it.
+func vServe(r *Raft) (*server, dialFn) {
+	lr := vNewListener()
+	srv := newServer(r, lr)
+	go srv.serve()
+	return srv, func(network, address string, timeout time.Duration) (net.Conn, error) {
+		if lr.closed {
+			return nil, vIOError{"dial: connection refused"}
+		}
+		a, b := vPipe()
+		lr.incoming <- b
+		return a, nil
+	}
+}
+
 // ---- building the two nodes ----
 
 const vDirF = "/ghostF"
@@ -173,14 +212,12 @@ func VH_C04_cluster2_catchup() {
 	lfsm, ffsm := L.fsm.FSM.(*vFSM), F.fsm.FSM.(*vFSM)
 
 	// the network: node 2 accepts, node 3 is down
-	fsrv := &server{r: F, stopCh: make(chan struct{})}
+	fsrv, dialF := vServe(F)
 	L.dialFn = func(network, address string, timeout time.Duration) (net.Conn, error) {
 		if address != vAddr(2) {
 			return nil, vIOError{"dial: connection refused"}
 		}
-		a, b := vPipe()
-		go func() { _ = fsrv.handleConn(b) }()
-		return a, nil
+		return dialF(network, address, timeout)
 	}
 
 	go L.fsm.runLoop()
@@ -209,6 +246,7 @@ func VH_C04_cluster2_catchup() {
 			vAssert(len(lfsm.updates) == 3 && vSameUpdates(lfsm, ffsm), "K-client-update-applied-once-on-both")
 			F.doClose(ErrServerClosed)
 			L.doClose(ErrServerClosed)
+			fsrv.shutdown()
 		}
 		step++
 	})
@@ -225,33 +263,33 @@ type vCluster struct {
 	nodes map[uint64]*Raft
 	logs  map[uint64]*vAbsLog
 	srv   map[uint64]*server
+	dial  map[uint64]dialFn
 	down  map[uint64]bool
 }
 
 var vClusterDirs = map[uint64]string{1: vDir, 2: vDirF, 3: "/ghostG"}
 
 func vNewCluster() *vCluster {
-	return &vCluster{nodes: map[uint64]*Raft{}, logs: map[uint64]*vAbsLog{}, srv: map[uint64]*server{}, down: map[uint64]bool{}}
+	return &vCluster{nodes: map[uint64]*Raft{}, logs: map[uint64]*vAbsLog{}, srv: map[uint64]*server{}, dial: map[uint64]dialFn{}, down: map[uint64]bool{}}
 }
 
 func (c *vCluster) add(nid uint64, ents []*entry, term, votedFor, commit uint64) *Raft {
 	r, a := vClusterNode(vClusterDirs[nid], nid, ents, term, votedFor, commit)
 	c.ids = append(c.ids, nid)
 	c.nodes[nid], c.logs[nid] = r, a
-	c.srv[nid] = &server{r: r, stopCh: make(chan struct{})}
 	return r
 }
 
-// wire: every node dials every other through a fresh byte pipe served by the peer's real connection handler.
+// wire: every node runs its real accept loop and dials every other through a fresh byte pipe.
 func (c *vCluster) wire() {
+	for _, id := range c.ids {
+		c.srv[id], c.dial[id] = vServe(c.nodes[id])
+	}
 	for _, id := range c.ids {
 		c.nodes[id].dialFn = func(network, address string, timeout time.Duration) (net.Conn, error) {
 			for _, pid := range c.ids {
 				if address == vAddr(int(pid)) && !c.down[pid] {
-					a, b := vPipe()
-					srv := c.srv[pid]
-					go func() { _ = srv.handleConn(b) }()
-					return a, nil
+					return c.dial[pid](network, address, timeout)
 				}
 			}
 			return nil, vIOError{"dial: connection refused"}
@@ -273,6 +311,9 @@ func (c *vCluster) start(mainID uint64) {
 func (c *vCluster) closeAll() {
 	for _, id := range c.ids {
 		c.nodes[id].doClose(ErrServerClosed)
+	}
+	for _, id := range c.ids {
+		c.srv[id].shutdown()
 	}
 }
 
@@ -565,14 +606,7 @@ func VH_C18_cluster2_client() {
 	L.state, L.leader = Leader, 1
 	c.wire()
 	c.start(1)
-	dialTo := func(id uint64) dialFn {
-		return func(network, address string, timeout time.Duration) (net.Conn, error) {
-			a, b := vPipe()
-			srv := c.srv[id]
-			go func() { _ = srv.handleConn(b) }()
-			return a, nil
-		}
-	}
+	dialTo := func(id uint64) dialFn { return c.dial[id] }
 	var (
 		infoL, infoF       Info
 		errIL, errIF, errC error
@@ -621,6 +655,87 @@ func VH_C18_cluster2_client() {
 			}
 			vAssert(F.configs.Latest.Index == 1 && L.configs.Latest.Index == 1, "P-rejected-change-takes-no-effect")
 			vAssert(errS == nil && stable.Index == 1 && len(stable.Nodes) == 3, "P-wait-for-stable-returns-the-committed-configuration")
+			c.closeAll()
+		}
+		step++
+	})
+	L.stateLoop()
+	vReach("closed")
+	vAssert(step >= 2, "script-completed")
+	vReach("end")
+}
+
+//verif:check C09,C03,C12,C04,C17 sched=coop maxsteps=1000000 onunwind=violation stubs=rt,timers,valuefile,abslog,snapfs onblock=violation reach=installed,by-entries,transfer-failed-retry,client-update-done,closed,end desc="two real nodes end to end through a snapshot installation: the leader has snapshotted and compacted its log up to index 3; a follower that lacks compacted entries (empty log, or only the first entry) cannot be served from the log, so the real replication falls back to sendInstallSnapReq and the follower's real onInstallSnapRequest stores the snapshot, resets its log and restores its state machine; a follower that has everything is served by entries. At quiescence the follower's snapshot label (index, term, configuration) equals the leader's, its log continues at the leader's entries byte for byte, commit indexes agree, the state machine was restored exactly once (or not at all), and a client update then commits and applies on both" bounds="3-voter configuration with one voter down; leader log compacted at a snapshot at index 3 (abstract payload of 10 bytes) + its no-op; 3 follower log shapes; the first snapshot transfer may fail at any byte count (the replication then backs off and retries); round-robin goroutine schedule"
+func VH_C09_cluster2_install() {
+	cfgE := vClusterConfig().encode()
+	cfgE.index, cfgE.term = 1, 1
+	e2 := &entry{index: 2, term: 1, typ: entryUpdate, data: vBytes("payload2", 1)}
+	e3 := &entry{index: 3, term: 2, typ: entryUpdate, data: vBytes("payload3", 1)}
+	c := vNewCluster()
+	L := c.add(1, []*entry{cfgE, e2, e3}, 3, 1, 3)
+	L.state, L.leader = Leader, 1
+	L.quorumWait = time.Hour // a leader that loses contact with its only live follower waits instead of stepping down at once
+	la := c.logs[1]
+	vPublishSnapshot(L, 3, 2, vClusterConfig(), 10)
+	la.prev = 3 // compacted up to the snapshot
+	var fents []*entry
+	fcommit := uint64(0)
+	shape := vChoice(3)
+	switch shape {
+	case 1:
+		fents, fcommit = []*entry{cfgE}, 1
+	case 2:
+		fents, fcommit = []*entry{cfgE, e2, e3}, 2
+	}
+	F := c.add(2, fents, 2, 0, fcommit)
+	fa := c.logs[2]
+	lfsm, ffsm := L.fsm.FSM.(*vFSM), F.fsm.FSM.(*vFSM)
+	c.down[3] = true
+	c.wire()
+	c.start(1)
+	ne := &newEntry{task: newTask(), entry: &entry{typ: entryUpdate, data: vBytes("client.cmd", 1)}}
+	step, retried := 0, false
+	vCopyFailBudget = 1
+	tail := func(f *vFSM, n int) [][]byte {
+		if len(f.updates) < n {
+			return nil
+		}
+		return f.updates[len(f.updates)-n:]
+	}
+	vSetIdleHook(func() {
+		switch step {
+		case 0:
+			if repl := L.ldr.repls[2]; repl.status.matchIndex != 4 && !retried {
+				// the snapshot transfer failed: the replication is backing off; its timer elapses and it tries again
+				retried = true
+				vReach("transfer-failed-retry")
+				vAssert(F.snaps.index == 0 && fa.prev == 0, "I-failed-transfer-leaves-the-follower-untouched")
+				vAssert(vFire(repl.timer), "I-replication-backs-off-on-a-timer")
+				return
+			}
+			vAssert(L.state == Leader && L.lastLogIndex == 4 && L.commitIndex == 4, "I-leader-settled")
+			vAssert(L.ldr.repls[2].status.matchIndex == 4, "I-follower-caught-up")
+			vAssert(F.lastLogIndex == 4 && F.commitIndex == 4 && F.term == 3, "I-follower-has-the-leaders-last-entry-committed")
+			vAssert(bytes.Equal(la.ents[3], fa.ents[len(fa.ents)-1]) && fa.last() == 4, "I-follower-log-continues-with-the-leaders-entries")
+			if shape == 2 {
+				vReach("by-entries")
+				vAssert(F.snaps.index == 0 && ffsm.restored == 0, "I-no-snapshot-needed-when-the-log-suffices")
+			} else {
+				vReach("installed")
+				vAssert(F.snaps.index == 3 && F.snaps.term == 2, "I-follower-snapshot-label-equals-leaders")
+				m, err := F.snaps.meta()
+				vAssert(err == nil && m.index == 3 && m.term == 2 && m.size == 10 && len(m.config.Nodes) == 3 && m.config.Index == 1, "I-stored-label-carries-index-term-size-configuration")
+				vAssert(fa.prev == 3, "I-follower-log-restarts-at-the-snapshot")
+				vAssert(ffsm.restored == 1 && F.fsm.index == 4, "I-state-machine-restored-exactly-once")
+				vAssert(F.configs.Latest.Index == 1 && len(F.configs.Latest.Nodes) == 3, "I-follower-adopted-the-label-configuration")
+			}
+			vOffer(L.newEntryCh, ne)
+		case 1:
+			vReach("client-update-done")
+			vAssert(isClosed(ne.Done()) && ne.Err() == nil, "I-client-update-completed")
+			vAssert(L.commitIndex == 5 && F.commitIndex == 5, "I-client-update-committed-on-both")
+			a, b := tail(lfsm, 1), tail(ffsm, 1)
+			vAssert(len(a) == 1 && len(b) == 1 && bytes.Equal(a[0], b[0]), "I-client-update-applied-on-both")
 			c.closeAll()
 		}
 		step++
